@@ -114,13 +114,14 @@ def _case_key(rec):
     return (len(s), s)
 
 
-def pmap(fn, items, jobs=None, label=""):
+def pmap(fn, items, jobs=None, label="", always_fork=False):
     """Run fn(item) for every item in forked children (no threads anywhere).
     Returns results in item order.  A child that dies is a machinery error."""
     items = list(items)
     jobs = jobs or int(os.environ.get("VERIF_JOBS", "0")) or os.cpu_count() or 1
-    if jobs <= 1 or len(items) <= 1:
+    if (jobs <= 1 or len(items) <= 1) and not always_fork:
         return [fn(it) for it in items]
+    jobs = max(jobs, 1)
     results = [None] * len(items)
     done = [False] * len(items)
     running = {}   # fd -> (idx, pid, chunks)
